@@ -126,6 +126,17 @@ def _tokens(dstr, pattern_sub):
     return out
 
 
+def _render(chain, pats):
+    DescriptorFormat.config = dict(DEFAULT)
+    try:
+        if pats is None:
+            return chain.to_string()
+        with DescriptorFormat(*pats):
+            return chain.to_string()
+    finally:
+        DescriptorFormat.config = dict(DEFAULT)
+
+
 def body_descr(sel: int) -> bool:
     si, rest = sel % len(STRUCTS), sel // len(STRUCTS)
     pi, pt = rest % len(POOLS), rest // len(POOLS)
@@ -146,16 +157,7 @@ def body_descr(sel: int) -> bool:
                 lst = lst[1:] + lst[:1]
             decays[names[i]] = DecayMode(0.5, lst if variant else " ".join(lst))
         chain = DecayChain(names[0], decays)
-        DescriptorFormat.config = dict(DEFAULT)
-        try:
-            if pats is None:
-                s = chain.to_string()
-            else:
-                with DescriptorFormat(*pats):
-                    s = chain.to_string()
-        finally:
-            DescriptorFormat.config = dict(DEFAULT)
-        strings.append(s)
+        strings.append(_render(chain, pats))
     if len(set(strings)) != 1:
         return fail(f"the descriptor depends on the order daughters / sub-decays were given in: {strings}")
     s = strings[0]
@@ -166,4 +168,36 @@ def body_descr(sel: int) -> bool:
         return fail(f"descriptor {s!r} cannot be read back with patterns {top!r} / {sub!r}: {e}")
     if got != exp:
         return fail(f"descriptor {s!r} reads back as {got}, the chain is {exp}")
+    # the descriptor follows the chain: after an in-place edit of the top-level final state (a public Counter) it shows the new tree
+    root = chain.decays[names[0]].daughters
+    leaf0 = leaves[0][0]
+    edit = (sel // 3) % 4
+    if edit == 0:
+        root.pop(leaf0)
+    elif edit == 1:
+        saved = {n: c for n, c in root.items() if n != leaf0}
+        root.clear()
+        root.update(saved)
+    elif edit == 2:
+        root.setdefault("e-", 2)
+    else:
+        root.popitem()
+    if sum(root.values()) == 0:
+        return True
+
+    def now(m):
+        items = []
+        for n, c in chain.decays[m].daughters.items():
+            for _ in range(c):
+                items.append(now(n) if n in chain.decays else n)
+        return (m, tuple(sorted(items, key=repr)))
+    exp2 = now(names[0])
+    s2 = _render(chain, pats)
+    try:
+        got2 = _read(s2, top, sub)
+    except Exception as e:
+        return fail(f"after {['pop', 'clear+update', 'setdefault', 'popitem'][edit]} on the top-level final state: descriptor {s2!r} cannot be read back: {e}")
+    if got2 != exp2:
+        return fail(f"after {['pop', 'clear+update', 'setdefault', 'popitem'][edit]} on the top-level final state the descriptor {s2!r} reads back as "
+                    f"{got2}, the chain is {exp2} (before the edit: {s!r})")
     return True
